@@ -59,7 +59,16 @@ func propBackendModel(c *Case) {
 
 		be := newCaseBackend(c, kind, cfg)
 		d := newMapDriver(c, be, cfgTTL, jit)
-		backendOps(c, d, baseKeys, c.Int("nops", 5, 60))
+		keys := baseKeys
+
+		// now and then two keys whose hashes agree in half of their bits (not collisions: two ordinary keys)
+		if c.Weighted("partial-hash-pair", 3, 1) == 1 {
+			pp := partialPairs[c.Pick("pair", len(partialPairs))]
+			keys = append(append([][]byte{}, baseKeys[:4]...), pp[0], pp[1])
+			c.Class("keys-with-partially-equal-hashes")
+		}
+
+		backendOps(c, d, keys, c.Int("nops", 5, 60))
 		d.compareAll()
 	})
 }
